@@ -51,18 +51,24 @@ Cases == CtxFamily \cup MaxFamily \cup MiscFamily
 
 (* send / send_pdata calls around the limit of the sender's peer *)
 Small(P) == P[1] = 0 /\ P[2] <= 32762
+(* a P-DATA PDU with k PDVs (command / data fragments as DIMSE traffic has   *)
+(* them) whose encoding is `total` bytes long: k-1 fragments of 10 bytes and *)
+(* one that takes the rest                                                   *)
+Multi(side, k, total) ==
+  LET pdvs == [i \in 1..k |-> IF i < k THEN 10 ELSE total - 6 - 6 * k - 10 * (k - 1)] IN
+  [side |-> side, via |-> "send", n |-> <<0, N!EncodedLen(pdvs)>>, pdvs |-> pdvs]
+One(side, via, n) == [side |-> side, via |-> via, n |-> n, pdvs |-> <<>>]   \* <<>> : a single PDV
 StepsFor(side, P) ==
   IF Small(P)
-    THEN <<[side |-> side, via |-> "send",  n |-> N!AddSmall(P, 5)],
-           [side |-> side, via |-> "send",  n |-> N!AddSmall(P, 6)],
-           [side |-> side, via |-> "send",  n |-> N!AddSmall(P, 7)],
-           [side |-> side, via |-> "pdata", n |-> <<0, 1>>],
-           [side |-> side, via |-> "pdata", n |-> <<0, P[2] - 6>>],
-           [side |-> side, via |-> "pdata", n |-> <<0, P[2] - 5>>],
-           [side |-> side, via |-> "pdata", n |-> <<0, 2 * P[2] + 3>>]>>
-    ELSE <<[side |-> side, via |-> "send",  n |-> <<0, 1000>>],
-           [side |-> side, via |-> "send",  n |-> <<1, 7>>],
-           [side |-> side, via |-> "pdata", n |-> <<0, 50000>>]>>
+    THEN LET L == P[2] + 6 IN      \* the longest encoding the peer accepts
+         <<One(side, "send", N!AddSmall(P, 5)), One(side, "send", N!AddSmall(P, 6)), One(side, "send", N!AddSmall(P, 7)),
+           One(side, "pdata", <<0, 1>>), One(side, "pdata", <<0, P[2] - 6>>),
+           One(side, "pdata", <<0, P[2] - 5>>), One(side, "pdata", <<0, 2 * P[2] + 3>>),
+           Multi(side, 2, L - 1), Multi(side, 2, L), Multi(side, 2, L + 1), Multi(side, 2, L + 6), Multi(side, 2, L + 7),
+           Multi(side, 3, L), Multi(side, 3, L + 1), Multi(side, 3, L + 12), Multi(side, 3, L + 13),
+           Multi(side, 8, L), Multi(side, 8, L + 1), Multi(side, 8, L + 42), Multi(side, 8, L + 43)>>
+    ELSE <<One(side, "send", <<0, 1000>>), One(side, "send", <<1, 7>>), One(side, "pdata", <<0, 50000>>),
+           Multi(side, 2, 2000), Multi(side, 8, 60000)>>
 WithExp(steps, P) == [i \in DOMAIN steps |->
                         [steps[i] EXCEPT !.n = @] @@ [allowed |-> steps[i].via = "pdata" \/ N!SendAllowed(steps[i].n, P)]]
 Steps(e) == IF e.est THEN WithExp(StepsFor("rq", e.rqPeer), e.rqPeer) \o WithExp(StepsFor("ac", e.acPeer), e.acPeer) ELSE <<>>
